@@ -53,7 +53,13 @@ def build_inputs(ctx, case, env):
     rows_in_file = {}
     k = 0
     for fi in range(nfiles):
-        p = env.path(f"ref{fi}.h5ad")
+        if case.get('same_basename'):
+            # files of several batches named alike in their own directories
+            import os
+            os.makedirs(env.path(f"batch{fi}"), exist_ok=True)
+            p = env.path(os.path.join(f"batch{fi}", "expression.h5ad"))
+        else:
+            p = env.path(f"ref{fi}.h5ad")
         nm = [f"cell{(3 * (k + i) + 1) % 11}_{k + i}" for i in range(ncell)]
         xdt = case.get('x_dtype')
         if xdt is not None:
